@@ -81,6 +81,7 @@ func (w *World) markClosed(p unsafe.Pointer, ch interface{}) {
 }
 
 // partner finds a parked task with a matching arm on an unbuffered channel.
+//
 //go:noinline
 func partner(w *World, self *Task, p unsafe.Pointer, wantSend bool) (*Task, int) {
 	for _, t := range w.tasks {
@@ -161,6 +162,7 @@ func (c *SCase[T]) fire(w *World, self *Task) {
 
 // resolve completes the partner's operation; the partner resumes with a
 // pseudo-operation that is always ready and selects arm idx.
+//
 //go:noinline
 func resolve(t *Task, idx int) {
 	t.resolved = true
@@ -233,6 +235,7 @@ func Select(hasDefault bool, cases ...Case) int {
 }
 
 // isUnbufferedIdle reports whether firing c must be a rendezvous.
+//
 //go:noinline
 func isUnbufferedIdle(c Case) bool {
 	type capper interface{ chanCap() int }
